@@ -43,6 +43,10 @@ var guardSpecs = []guardSpec{
 	{"callRestartGuard", "pkg/controller.v1beta1/experiment/experiment_controller.go", "Reconcile", "r.restartSuggestion(instance)", expAtoms, expParams},
 	{"callReconcileExperimentGuard", "pkg/controller.v1beta1/experiment/experiment_controller.go", "Reconcile", "r.ReconcileExperiment(instance)", expAtoms, expParams},
 	{"markCreatedGuard", "pkg/controller.v1beta1/experiment/experiment_controller.go", "Reconcile", "instance.MarkExperimentStatusCreated(", expAtoms, expParams},
+	{"callUpdateStatusGuard", "pkg/controller.v1beta1/experiment/experiment_controller.go", "ReconcileExperiment", "util.UpdateExperimentStatus(", recAtoms, recParams},
+	{"callReconcileTrialsGuard", "pkg/controller.v1beta1/experiment/experiment_controller.go", "ReconcileExperiment", "r.ReconcileTrials(instance, trials.Items)", recAtoms, recParams},
+	{"callDeleteTrialsGuard", "pkg/controller.v1beta1/experiment/experiment_controller.go", "ReconcileTrials", "r.deleteTrials(", recAtoms, recParams},
+	{"callCreateTrialsGuard", "pkg/controller.v1beta1/experiment/experiment_controller.go", "ReconcileTrials", "r.createTrials(", recAtoms, recParams},
 	{"sugRestartGuard", "pkg/controller.v1beta1/experiment/experiment_controller_util.go", "restartSuggestion", "original.DeepCopy()",
 		map[string]string{"err != nil": "getFailed", "errors.IsNotFound(err)": "notFound", "original.IsCompleted()": "sugCompleted", "original.IsRestarting()": "sugRestarting", "original.IsSucceeded()": "sugSucceeded", "instance.IsRestarting()": "expRestarting"},
 		[]string{"getFailed", "notFound", "sugCompleted", "sugRestarting", "sugSucceeded", "expRestarting"}},
@@ -61,6 +65,14 @@ var expAtoms = map[string]string{
 }
 var expParams = []string{"callFailed", "notFound", "finalizerUpdateDue", "completed", "never", "fromVolume", "restartable", "maxSet", "maxAboveTrials", "trialsNonZero", "hasRunningTrials", "created", "startUnset", "completionUnset", "statusSame"}
 
+var recAtoms = map[string]string{
+	"err != nil": "callFailed", "len(trials.Items) > 0": "trialsNonEmpty", "instance.IsCompleted()": "completed",
+	"activeCount > parallelCount": "activeAbovePar", "activeCount < parallelCount": "activeBelowPar",
+	"deleteCount > 0": "deletePositive", "addCount > 0": "addPositive", "addCount < 0": "addNegative",
+	"instance.Spec.MaxTrialCount == nil": "(!maxSet)", "requiredActiveCount > parallelCount": "requiredAbovePar",
+}
+var recParams = []string{"callFailed", "trialsNonEmpty", "completed", "activeAbovePar", "activeBelowPar", "deletePositive", "addPositive", "addNegative", "maxSet", "requiredAbovePar"}
+
 var verdictAtoms = map[string]string{
 	"jobStatus.Condition == trialutil.JobSucceeded": "jobSucceeded", "jobStatus.Condition == trialutil.JobFailed": "jobFailed",
 	"jobStatus.Condition == trialutil.JobRunning": "jobRunning",
@@ -72,6 +84,7 @@ var verdictAtoms = map[string]string{
 var verdictParams = []string{"jobSucceeded", "jobFailed", "jobRunning", "obsAvailable", "succeeded", "earlyStopped", "metricsUnavailable", "failed", "running", "push", "reportFailed", "hasMessage", "hasReason"}
 
 type guardWalker struct {
+	binds       map[string]ast.Expr // identifiers bound exactly once by `x := <expr>` in the function
 	fset        *token.FileSet
 	spec        guardSpec
 	unknown     []string
@@ -80,7 +93,36 @@ type guardWalker struct {
 }
 
 func (g *guardWalker) cond(e ast.Expr) string {
+	// a boolean variable assigned once (`reconcileRequired := !instance.IsCompleted()`) stands for its definition
+	if id, ok := e.(*ast.Ident); ok {
+		if _, known := g.spec.atoms[id.Name]; !known {
+			if rhs, ok := g.binds[id.Name]; ok {
+				return "(" + boolToLean(g.fset, rhs, g.spec.atoms, &g.unknown) + ")"
+			}
+		}
+	}
 	return boolToLean(g.fset, e, g.spec.atoms, &g.unknown)
+}
+
+func singleBinds(body *ast.BlockStmt) map[string]ast.Expr {
+	binds, count := map[string]ast.Expr{}, map[string]int{}
+	ast.Inspect(body, func(n ast.Node) bool {
+		if as, ok := n.(*ast.AssignStmt); ok && len(as.Lhs) == len(as.Rhs) {
+			for i, l := range as.Lhs {
+				if id, ok := l.(*ast.Ident); ok {
+					count[id.Name]++
+					binds[id.Name] = as.Rhs[i]
+				}
+			}
+		}
+		return true
+	})
+	for k, c := range count {
+		if c != 1 {
+			delete(binds, k)
+		}
+	}
+	return binds
 }
 
 func (g *guardWalker) containsCall(n ast.Node) bool {
@@ -175,6 +217,7 @@ func extractGuards(repo, out string) error {
 		g := &guardWalker{fset: fset, spec: sp}
 		for _, d := range f.Decls {
 			if fd, ok := d.(*ast.FuncDecl); ok && fd.Name.Name == sp.fn && fd.Body != nil {
+				g.binds = singleBinds(fd.Body)
 				g.walk(fd.Body.List, "true")
 			}
 		}
